@@ -60,7 +60,7 @@ package first
 //@
 //@ # ---- the fixed point (C02, C04, C06): GetFirstSets stops only when every production is closed ----
 //@ func (SymbolSet).Equal
-//@   prop C02
+//@   prop C02 C04 C06
 //@   ensures [subset] imp(result, forallS(k, imp(has(this, k), has(that, k))))
 //@   assigns nothing
 //@   loop 1
@@ -75,7 +75,7 @@ package first
 //@
 //@ spec terminalSet(fs *FirstSets, id string) SymbolSet = fs.firstSets[id]
 //@ func (*FirstSets).AddToken
-//@   prop C02
+//@   prop C02 C04 C06
 //@   requires [wf] setsWF(this)
 //@   ensures [added] recorded(this, prodName, terminal)
 //@   ensures [flag] symbolAdded == !old(recorded(this, prodName, terminal))
@@ -89,7 +89,7 @@ package first
 //@   assigns mapof(this.firstSets), mapof(ite(has(this.firstSets, prodName), this.firstSets[prodName], nil))
 //@
 //@ func (*FirstSets).AddSet
-//@   prop C02
+//@   prop C02 C04 C06
 //@   requires [wf] setsWF(this)
 //@   requires [other] forallS(s, imp(has(this.firstSets, s), this.firstSets[s] != terminals)) && terminals < alloc()
 //@   ensures [added] forallS(k, imp(has(terminals, k), recorded(this, prodName, k)))
@@ -115,7 +115,7 @@ package first
 //@     invariant [only] forallS(s, forallS(k, imp(recorded(this, s, k), old(recorded(this, s, k)) || (s == prodName && visited(1, k)))))
 //@
 //@ func stringList
-//@   prop C02
+//@   prop C02 C04 C06
 //@   requires [symbols] all(i, 0, len(symbols), isSym(symbols[i]))
 //@   ensures [len] len(result) == len(symbols) && arr(result) >= old(alloc())
 //@   ensures [names] all(i, 0, len(symbols), result[i] == SymStr(symbols[i]))
